@@ -258,9 +258,22 @@ pub fn conc_index(count: u32, mode: u8, sel: u16) -> usize {
 
 pub const OOB: [usize; 10] = [0, 1, 2, 63, 64, 127, 128, 1 << 20, usize::MAX - 1, usize::MAX];
 
-pub fn conc_oob(count: u32, sel: u16) -> usize {
+pub fn conc_oob(count: u32, stride: u32, sel: u16) -> usize {
     let k = count as usize;
-    let list = [k, k + 1, 2 * k, 63, 64, 127, 128, 255, 256, 1 << 20, usize::MAX / 2, usize::MAX - 1, usize::MAX];
+    let mut list = vec![k, k + 1, 2 * k, 63, 64, 127, 128, 255, 256, 1 << 20, usize::MAX / 2, usize::MAX - 1, usize::MAX];
+    // indices whose offset `index * stride` wraps around to the offset of a valid element
+    // (index = i + 2^(64-t) for a stride divisible by 2^t)
+    let t = stride.trailing_zeros().min(16);
+    if stride > 0 && usize::BITS == 64 {
+        for tt in 1..=t.max(1) {
+            let w = 1usize << (64 - tt);
+            list.push(w);
+            list.push(w + 1);
+            list.push(w + k - 1);
+        }
+        list.push(1usize << 63);
+        list.push((1usize << 63) + 1);
+    }
     let cands: Vec<usize> = list.iter().copied().filter(|x| *x >= k).collect();
     cands[pick(sel, cands.len())]
 }
